@@ -353,6 +353,15 @@ def checksum_rule(ctx, I):
     st.heap[('GP', 'text')] = SStr('TEXT')
     res = I.run_method(st, GP, 'stringify', Obj('GP'), [])
     n = 0
+    ctx.rule('C18.R9', 'the normalised command carries the parameter text whenever there is one (not None): dropping it on some '
+                       'condition - blank-looking text, for example - makes the re-parsed command differ from the original', floor=1)
+    for (s, v) in res:
+        if not isinstance(v, Raised):
+            ctx.instance('C18.R9', repr(vkey(v))[:80])
+            if not any('PARAMS' in repr(vkey(x)) for x in live_alts(s, v)):
+                ctx.report('C18.R9', 'GcodeParser.stringify', 'parameter text left out of the normalised command',
+                           'on some path stringify() renders a command whose parameter text is not None without that text; parsing '
+                           'the result again gives other parameters than the original line had')
     for (s, v) in res:
         evs = [e for e in s.trace if e[0] == 'checksum-of']      # computed by stringify or by a helper it calls
         if not evs or isinstance(v, Raised) or not isinstance(v, Cat):
